@@ -61,7 +61,10 @@
 //     on / returned / handed to which call" are part of the translated meaning
 //     (tokens appear in traces via toString); reading a field through such a
 //     value is still an opaque value parameter; `&x` and `*p` are opaque values;
-//     a `var` of a type that stays untranslatable (func values) is skipped.
+//     a `var` of a type that stays untranslatable (func values) is skipped;
+//     under "refs" a slice of translatable elements is a `List`, `len(s)` its
+//     length, `s[i]` is `none` (panic) unless 0 ≤ i < len(s), nil slice = [];
+//   - `len(x)` of anything else is an opaque value parameter.
 //
 // Anything else is a translation error: the generated definition is replaced
 // by a marker that makes the Tie theorem fail, i.e. a broken obligation.
@@ -283,6 +286,9 @@ func (t *translator) leanType(ty types.Type) string {
 	case *types.Slice:
 		if isError(u.Elem()) {
 			return "(List (Option String))"
+		}
+		if el := t.leanType(u.Elem()); t.refs && el != "" {
+			return "(List " + el + ")"
 		}
 		return ""
 	case *types.Interface:
@@ -650,7 +656,17 @@ func (c *fctx) expr(e ast.Expr) ex {
 	case *ast.StarExpr:
 		return c.opaqueValue(e)
 	}
-	if _, ok := e.(*ast.IndexExpr); ok {
+	if ix, ok := e.(*ast.IndexExpr); ok {
+		if _, isSl := c.typeOf(ix.X).Underlying().(*types.Slice); isSl && strings.HasPrefix(c.t.leanType(c.typeOf(ix.X)), "(List") && c.t.leanType(c.typeOf(e)) != "" {
+			c.partial = true // index out of range: a run-time panic
+			r := c.bindN([]ex{c.expr(ix.X), c.expr(ix.Index)}, func(s []string) string {
+				return "(if " + s[1] + " < 0 then none else (" + s[0] + ")[(" + s[1] + ").toNat]?)"
+			})
+			if r.partial {
+				return ex{code: "(Option.join " + r.code + ")", partial: true}
+			}
+			return ex{code: r.code, partial: true}
+		}
 		return c.opaqueValue(e)
 	}
 	fail("expression %s (%T)", c.show(e), e)
@@ -888,6 +904,11 @@ func (c *fctx) call(x *ast.CallExpr) ex {
 					xs = append(xs, c.exprAs(a, sl.Elem()))
 				}
 				return c.bindN(xs, func(s []string) string { return "(" + s[0] + " ++ [" + strings.Join(s[1:], ", ") + "])" })
+			case "len":
+				if strings.HasPrefix(c.t.leanType(c.typeOf(x.Args[0])), "(List") {
+					return c.bindN([]ex{c.expr(x.Args[0])}, func(s []string) string { return "(Int.ofNat (" + s[0] + ").length)" })
+				}
+				return c.opaqueValue(x)
 			case "min", "max":
 				var xs []ex
 				for _, a := range x.Args {
@@ -1308,6 +1329,8 @@ func (c *fctx) zero(t types.Type) string {
 		return "\"\""
 	case strings.HasPrefix(lt, "(Option"):
 		return "none"
+	case strings.HasPrefix(lt, "(List"):
+		return "[]"
 	}
 	fail("zero value of %s", t)
 	return ""
